@@ -44,8 +44,36 @@ def run_script(it, toks, stack, labels=None, pretty=0, ignore=0, module=None, fu
     for p in paths:
         t = templates.Template(oracle.BY_NAME['nop'], p, pretty, 0, stack)
         t.ls = p.state['ls']
+        t.labels_before = labels
         out.append(t)
     return out
+
+
+LETTERS = {}        # type name -> slot letter, filled by run() from the translator's tables
+
+
+def undeclared_slots(t):
+    """operand-stack variables that the emitted text of script template t mentions although nothing declares them: not recorded in
+    stackDeclarations by this script, not a slot of the operand stack the script started with (declared by the producer of that
+    operand) and not the result slot of a label that was open before the script (declared when that label was opened)"""
+    if not LETTERS:
+        return []
+    by_letter = {v: k for k, v in LETTERS.items()}
+    given = {(i, ty) for i, ty in enumerate(t.stack_before)}
+    for lab in (t.labels_before or [(0, 0, None)]):
+        if len(lab) > 2 and lab[2] is not None:
+            given.add((lab[1] if isinstance(lab[1], int) else 0, lab[2]))
+    bad = []
+    for m in re.finditer(r'\bs([a-z])(\d+)\b', t.text()):
+        ty = by_letter.get(m.group(1))
+        if ty is None:
+            continue
+        idx = int(m.group(2))
+        if ty in t.decls.get(idx, set()) or (idx, ty) in given:
+            continue
+        if m.group(0) not in bad:
+            bad.append(m.group(0))
+    return bad
 
 
 def one(chk, tpls, what, reject_rule=None, site=None):
@@ -57,7 +85,20 @@ def one(chk, tpls, what, reject_rule=None, site=None):
         return None
     if len(tpls) != 1 or len(good) != 1:
         raise AnalysisBroken('%s: %d paths, %d successful (%s)' % (what, len(tpls), len(good), '; '.join(t.cond for t in tpls)[:200]))
+    und = undeclared_slots(good[0]) if hasattr(good[0], 'labels_before') else []
+    if und:
+        chk.fail(DECL_RULE[0], 'slots-declared[%s]' % what,
+                 'script "%s": the emitted code uses the operand-stack variable(s) %s that nothing declares - the emitter did not record them in '
+                 'stackDeclarations (recorded: %r), no earlier operand lives there and it is not the result slot of an enclosing label; the generated '
+                 'function does not compile (undeclared identifier). Emitted: %r' % (what, ', '.join(und), good[0].decls, good[0].text()[:300]),
+                 site or 'stackDeclarations/' + what.split('[')[0])
+    else:
+        DECL_COUNT[0] += 1
     return good[0]
+
+
+DECL_RULE = ['R03.5']
+DECL_COUNT = [0]
 
 
 def const(t, v=MARK):
@@ -564,6 +605,8 @@ def run(chk):
     it = emit.make_interp(tus)
     vts = c01.value_types(it)
     tabs = c01.read_type_tables(chk, tus[0], it, vts, 'R03.5')
+    LETTERS.update(tabs['letter'])
+    DECL_COUNT[0] = 0
     check_labels(chk, it, tabs)
     check_branches(chk, it, tabs)
     check_ignore_equivalence(chk, it)
@@ -572,6 +615,9 @@ def run(chk):
     check_function_body(chk, tus, tabs)
     check_function_sequence(chk)
     check_branch_family(chk, emit.make_interp(tus), tabs, chk.tier)
+    chk.require(DECL_COUNT[0] >= 100, 'declared-slot rule evaluated on %d scripts only' % DECL_COUNT[0])
+    chk.ok('R03.5', 'slots-declared', '%d control-flow scripts: every operand-stack variable in the emitted text is recorded in stackDeclarations, '
+           'was on the initial stack or is the result slot of an enclosing label' % DECL_COUNT[0])
     chk.floor('R03.1', 20)
     chk.floor('R03.2', 40)
     chk.floor('R03.3', 400)
